@@ -184,6 +184,18 @@ Example C06_example_copy_meta :
   next_id (cs (s_run E0 init_ss ops_copy_meta)) = 9%N.
 Proof. exact example_copy_meta. Qed.
 
+(** Copies of a group to places strictly below the group itself (with and without metadata, and
+    into its own sub-group object): a snapshot of the source is grafted, every call succeeds,
+    the state stays in sync. *)
+Example C06_example_self_copy :
+  Sync E0 (s_run E0 init_ss ops_self_copy) /\
+  t_has (raw (cs (s_run E0 init_ss ops_self_copy))) ["g"; "b"; "c"; "h"; "metador_meta_"] = true /\
+  t_has (raw (cs (s_run E0 init_ss ops_self_copy))) ["g"; "b"; "c"; "b"] = false /\
+  t_has (raw (cs (s_run E0 init_ss ops_self_copy))) ["g"; "h"; "again"; "metador_meta_"] = true /\
+  t_has (raw (cs (s_run E0 init_ss ops_self_copy))) ["g"; "h"; "k"; "b"; "c"; "x"] = true /\
+  t_has (raw (cs (s_run E0 init_ss ops_self_copy))) ["g"; "h"; "k"; "metador_meta_"] = false.
+Proof. exact example_self_copy. Qed.
+
 (** Pinned [_set_raw] (object stored before [register]): a failing schema export leaves an
     object without link -- not in sync. *)
 Theorem C06_attach_pinned_refuted :
